@@ -273,6 +273,10 @@ class Skeleton:
                 tag = "strict" if self.attr(pid)["strict"] else "weak"
             rest = self.chain(src, inp, x, ps, depth + 1)
             return None if rest is None else rest + [(tag, pid, t)]
+        if rem[0] == "tproj" and rem[2] == 1 and rem[1][0] == "payload" and rem[1][2] == SOME and rem[1][1][0] == "call" and rem[1][1][1].endswith("::split_first") and len(rem[1][1][2]) == 1:
+            # x.split_first()?.1 is x without its first byte
+            rest = self.chain(rem[1][1][2][0], inp, x, ps, depth + 1)
+            return None if rest is None else rest + [("strict", ("slice", "split_first"))]
         if rem[0] == "tproj" and rem[2] == 1 and rem[1][0] == "call" and rem[1][1].endswith("::split_at") and len(rem[1][2]) == 2:
             # x.split_at(k).1 is the tail of x
             k = rem[1][2][1]
